@@ -946,7 +946,7 @@ fn read_case(t: &mut Tape, ctx: &Ctx, o: &mut Outcome) {
     }
     // truncated files: whatever sequential reads deliver (before any repositioning) must be a prefix of what the
     // complete member encodes - never invented or reordered bytes
-    if let Some(full) = &full_logical {
+    if let (Some(full), true) = (&full_logical, file.len() >= 2) {
         let mut seq: Vec<u8> = Vec::new();
         let base = if bufsize.is_some() { 1 } else { 0 };
         for (k, op) in ops.iter().enumerate() {
